@@ -286,8 +286,13 @@ pub enum HMode {
     Mod4,
     /// a fixed 64-bit mixer (uniform)
     Mix,
+    /// hash = (tag / 2) << 8 | 5: one bin until the table outgrows 256 bins, and every hash value is
+    /// shared by two keys (a tree bin with several hash values, each with equal-hash neighbours)
+    PairBin,
+    /// hash = (tag % 5) << 40: five hash values shared by all keys, all in bin 0 of every table
+    FewHigh,
 }
-pub const ALL_HMODES: [HMode; 7] = [
+pub const ALL_HMODES: [HMode; 9] = [
     HMode::Identity,
     HMode::Const0,
     HMode::ConstMax,
@@ -295,6 +300,8 @@ pub const ALL_HMODES: [HMode; 7] = [
     HMode::SameBin,
     HMode::Mod4,
     HMode::Mix,
+    HMode::PairBin,
+    HMode::FewHigh,
 ];
 impl HMode {
     pub fn hash_tag(self, tag: u32) -> u64 {
@@ -306,6 +313,8 @@ impl HMode {
             HMode::High => a << 48,
             HMode::SameBin => (a << 8) | 5,
             HMode::Mod4 => a % 4,
+            HMode::PairBin => ((a >> 1) << 8) | 5,
+            HMode::FewHigh => (a % 5) << 40,
             HMode::Mix => {
                 let mut z = a.wrapping_add(0x9e37_79b9_7f4a_7c15);
                 z = (z ^ (z >> 30)).wrapping_mul(0xbf58_476d_1ce4_e5b9);
